@@ -19,7 +19,7 @@ def run(chk, replay=None):
     k2v2.standard_k2v2(chk)   # second-generation model Calc2 (lifetimes, contexts, more algorithms): tie (theorems: Properties_*_calc2.v)
 
 
-EXPECT = {"sor_prestopped_then_throw": "d"}    # every other probe: a registration threw with nothing stopped -> set_error
+EXPECT = {"sor_prestopped_then_throw": "d", "lvst_stop_while_running_d": "d", "lvst_stop_while_running_v": "v", "lvst_prestopped_d": "d"}    # every other probe: a registration threw with nothing stopped -> set_error
 
 def fault_probe(chk):
     """harness/k3_c04_probe.cpp: stop-callback hygiene on fault paths (throwing callback registration in stop_on_request):
@@ -48,13 +48,15 @@ def fault_probe(chk):
             why = "%d external stop callback(s) still alive when the receiver was completed" % le
         elif af != 0:
             why = "%d registration(s) left on the receiver's source after completion" % af
+        elif name.startswith("lvst") and " seen=1 early=0" not in l:
+            why = "the stop request on the receiver's token was not visible (or visible too early) through the token let_value_with_stop_token handed out"
         if why:
             p = chk.replay_file("c04probe_" + name, {"kind": "fault-probe", "probe": name, "line": l, "why": why, "replay": exe + " | grep " + name})
             chk.violation("c04probe/%s" % name, p, text="%s: %s" % (name, why))
             found = True
         else:
             chk.cov["traces_validated_against_impl"] += 1
-    if (rc != 0 or "END" not in out or n < 7) and not found:   # the program stops at the first probe that leaves a registration behind
+    if (rc != 0 or "END" not in out or n < 10) and not found:   # the program stops at the first probe that leaves a registration behind
         p = chk.replay_file("c04probe_run", {"kind": "probe-crash", "rc": rc, "out": out[-2000:], "replay": exe})
         chk.violation("c04probe/crash", p, text="fault probe program failed rc=%d after %d probes" % (rc, n))
     chk.cov["fault_probes"] = n
